@@ -86,6 +86,10 @@ func casesForEntry(e *gen.Entry, o CaseOpts, seedIdx int) []Case {
 							out = append(out, Case{Entry: e, File: "main.tf", Text: ed, Family: "edit", PosTo: -1})
 						}
 					}
+					// the same file with CRLF line endings (multi-line values in every tier, all in thorough)
+					if si == 3 && (thorough || strings.Contains(v, "\n")) && !strings.Contains(v, "\r") {
+						out = append(out, Case{Entry: e, File: "main.tf", Text: strings.ReplaceAll(s, "\n", "\r\n"), Family: "crlf", PosTo: -1})
+					}
 				}
 			}
 			// attribute name / equals sign being typed
@@ -119,6 +123,16 @@ func casesForEntry(e *gen.Entry, o CaseOpts, seedIdx int) []Case {
 							continue
 						}
 						out = append(out, Case{Entry: e, File: "main.tf", Text: p, Family: "prefix", PosTo: -1})
+					}
+				}
+				if crlf := strings.ReplaceAll(s, "\n", "\r\n"); crlf != s {
+					out = append(out, Case{Entry: e, File: "main.tf", Text: crlf, Family: "crlf", PosTo: -1})
+					if o.Prefixes && thorough {
+						for _, p := range gen.Prefixes(crlf) {
+							if len(p) != len(crlf) {
+								out = append(out, Case{Entry: e, File: "main.tf", Text: p, Family: "crlf-prefix", PosTo: -1})
+							}
+						}
 					}
 				}
 				if o.Edits {
